@@ -20,9 +20,9 @@ def cfg(mode, emit=True, dev="{}", live=True):
 def run(ctx):
     return c01.run_family(
         ctx, "Constructor", gen_imm.build_ctor, {"CTOR"}, cfg,
-        modes_quick=[("single", 12000), ("seq2", None), ("spell", None)],
+        modes_quick=[("single", 6000), ("seq2", None), ("spell", None)],
         modes_thorough=[("single", None), ("seq2", None), ("seq3", None), ("spell", None)],
-        devs=[("LeakWalkState", "seq2", ("Exact",)), ("CtorAnyPkg", "single", ("Exact",)), ("CtorByBareName", "single", ("Exact",)), ("NoUnalias", "spell", ("Exact",)), ("CtorAnyType", "single", ("Exact",)), ("GroupDocLeaks", "single", ("Exact",)), ("PruneReported", "single", ("Exact",)), ("BareNameCache", "seq2", ("Exact",)), ("PtrAliasIsValue", "spell", ("Exact",))],
+        devs=[("LeakWalkState", "seq2", ("Exact",)), ("CtorAnyPkg", "single0", ("Exact",)), ("CtorByBareName", "single0", ("Exact",)), ("NoUnalias", "spell", ("Exact",)), ("CtorAnyType", "single0", ("Exact",)), ("GroupDocLeaks", "single0", ("Exact",)), ("PruneReported", "single0", ("Exact",)), ("BareNameCache", "seq2", ("Exact",)), ("PtrAliasIsValue", "spell", ("Exact",))],
         registry=True,
         assumptions=["fragment: non-generic defined types, direct imports, one candidate statement per declaration",
                      "trailing comma in the constructor list and methods named like a constructor are not generated (unspecified)",
